@@ -133,7 +133,13 @@ def oracle_shifts(rule) -> Optional[Tuple[int, ...]]:
     sizes only (no shifts() of the library is called).  Term n of the parent needs child i up to size n - shift_i.
     None when the derivation does not apply (an empty factor)."""
     if isinstance(rule, VerificationRule):
-        return ()
+        # a verification rule with children (dependencies): in this universe class = {front} x child, so the reliance on the
+        # child is the difference of the brute-force minimum sizes
+        pm = oracle_min_size(rule.comb_class)
+        mins = [oracle_min_size(c) for c in rule.children]
+        if rule.children and (pm is None or None in mins):
+            return None
+        return tuple(pm - m for m in mins)
     if isinstance(rule, (EquivalencePathRule, EquivalenceRule)):
         return tuple(0 for _ in rule.children)
     cons = rule.constructor
